@@ -238,7 +238,13 @@ func handlerStateless(c *Ctx, r *Report, rule, rel, outerName string) bool {
 				written := ""
 				switch x := ref.(type) {
 				case *ssa.UnOp:
-					continue // plain read
+					// a read - but what is read may be a reference (pointer, map, slice) to an
+					// object that outlives the request: written through it?
+					if why := writtenThrough(c, x, 0, map[ssa.Value]bool{}); why != "" {
+						written = "a reference to an object that lives across requests, and the handler writes it (" + why + ")"
+					} else {
+						continue
+					}
 				case *ssa.Store:
 					if x.Addr == ssa.Value(fv) {
 						written = "assigned"
@@ -317,6 +323,96 @@ func handlerStateless(c *Ctx, r *Report, rule, rel, outerName string) bool {
 		}
 	}
 	return ok
+}
+
+// writtenThrough: v is a value of reference kind (or an address derived from one); does the
+// function - or a module function it hands v to - store through it?  Returns a description
+// of the first write found, "" when there is none.  Library callees are taken to read only,
+// except the mutators of sync.Map / sync/atomic / containers (named below).
+func writtenThrough(c *Ctx, v ssa.Value, depth int, seen map[ssa.Value]bool) string {
+	if seen[v] || depth > 4 {
+		return ""
+	}
+	seen[v] = true
+	switch v.Type().Underlying().(type) {
+	case *types.Pointer, *types.Map, *types.Slice, *types.Chan, *types.Interface:
+	default:
+		return ""
+	}
+	refs := v.Referrers()
+	if refs == nil {
+		return ""
+	}
+	for _, ref := range *refs {
+		switch x := ref.(type) {
+		case *ssa.Store:
+			if x.Addr == v {
+				return "assignment at " + c.rel(x.Pos())
+			}
+		case *ssa.MapUpdate:
+			if x.Map == v {
+				return "map entry assigned at " + c.rel(x.Pos())
+			}
+		case *ssa.FieldAddr:
+			if w := writtenThrough(c, x, depth, seen); w != "" {
+				return w
+			}
+		case *ssa.IndexAddr:
+			if w := writtenThrough(c, x, depth, seen); w != "" {
+				return w
+			}
+		case *ssa.UnOp:
+			if x.Op == token.MUL {
+				if w := writtenThrough(c, x, depth, seen); w != "" {
+					return w
+				}
+			}
+		case *ssa.Phi, *ssa.ChangeType, *ssa.Convert, *ssa.Slice:
+			if w := writtenThrough(c, x.(ssa.Value), depth, seen); w != "" {
+				return w
+			}
+		case *ssa.Send:
+			if x.Chan == v {
+				return "sent on at " + c.rel(x.Pos())
+			}
+		case ssa.CallInstruction:
+			com := x.Common()
+			if bi, ok := com.Value.(*ssa.Builtin); ok {
+				if (bi.Name() == "delete" || bi.Name() == "clear" || bi.Name() == "copy") && len(com.Args) > 0 && com.Args[0] == v {
+					return bi.Name() + " at " + c.rel(x.Pos())
+				}
+				continue
+			}
+			callee := com.StaticCallee()
+			if callee != nil && c.inModule(callee) && callee.Blocks != nil {
+				for i, a := range com.Args {
+					if a == v && i < len(callee.Params) {
+						if w := writtenThrough(c, callee.Params[i], depth+1, seen); w != "" {
+							return w + " in " + callee.Name()
+						}
+					}
+				}
+				continue
+			}
+			obj := calleeObj(com)
+			if obj == nil || obj.Pkg() == nil {
+				continue
+			}
+			first := len(com.Args) > 0 && com.Args[0] == v || com.IsInvoke() && com.Value == v
+			if !first {
+				continue
+			}
+			switch obj.Pkg().Path() {
+			case "sync", "sync/atomic", "container/list", "container/heap", "container/ring":
+				for _, p := range []string{"Store", "Add", "Swap", "CompareAnd", "LoadOr", "LoadAnd", "Delete", "Clear", "Push", "Insert", "Remove", "Move", "Put", "And", "Or"} {
+					if strings.HasPrefix(obj.Name(), p) {
+						return obj.Pkg().Name() + "." + obj.Name() + " at " + c.rel(x.Pos())
+					}
+				}
+			}
+		}
+	}
+	return ""
 }
 
 func callName(ci ssa.CallInstruction) string {
